@@ -1,3 +1,4 @@
 #![allow(unused)]
 #[cfg(kani)]
 mod c07;
+// c03.rs (past-median time over a mock chain) is kept for reference but not compiled: the harness did not finish in 900 s
